@@ -170,7 +170,69 @@ def run(repo: Repo, chk: Check, thorough: bool = False) -> None:
     ok = own is not None and 'PARENT_PAGE' in norm(own) and 'OWN_PAGE' in norm(repo.cls(DOC).aliases.get('documentation_location'))
     chk.ob('R11.3', 'model :: functions/attributes live on the parent page, everything else on its own', ok,
            'Documentable: OWN_PAGE, Inheritable: PARENT_PAGE' if ok else 'documentation_location defaults changed', 'pydoctor/model.py')
-    chk.require('R11.3', 4)
+    # registry <= page tree: whatever is registered in System.allobjects (the domain of the indexes and of link resolution) must be reachable
+    # from a root through `contents` (the domain of the page writer) - or be forced HIDDEN, so that nothing lists it or links to it
+    from ..owners import writers
+
+    def reachable_or_hidden(f: Func, name: str, depth: int = 0) -> Optional[str]:
+        if depth > 3:
+            return None
+        for n in f.walk():
+            if isinstance(n, ast.Assign) and isinstance(n.value, ast.Name) and n.value.id == name and \
+                    any(isinstance(t, ast.Subscript) and isinstance(t.value, ast.Attribute) and t.value.attr == 'contents' for t in n.targets):
+                return f'{norm(n)[:60]} in {f.name}()'
+            if isinstance(n, ast.Call) and call_name(n) == 'append' and 'rootobjects' in norm(n.func) and n.args and norm(n.args[0]) == name:
+                return f'{norm(n)[:60]} in {f.name}()'
+            if isinstance(n, ast.Assign) and norm(n.value).endswith('PrivacyClass.HIDDEN') and \
+                    any(name in {x.id for x in ast.walk(t) if isinstance(x, ast.Name)} for t in n.targets):
+                return f'forced hidden: {norm(n)[:70]} in {f.name}()'
+            if isinstance(n, ast.For) and isinstance(n.target, ast.Name) and n.target.id == name and norm(n.iter).endswith('.contents.values()'):
+                return f'a member of an object that is itself registered ({norm(n.iter)})'
+        ps = [p_.arg for p_ in f.params()]
+        if name not in ps:
+            return None
+        idx = ps.index(name)
+        sites = []
+        for g in repo.funcs.values():
+            if g.mod is not f.mod:
+                continue
+            for c in calls_in(g, lambda c: call_name(c) == f.name):
+                if g is f and f.cls is None:   # the recursive call of a nested helper: argument judged inside f itself
+                    pass
+                sites.append((g, c))
+        if not sites:
+            return None
+        whys = []
+        for g, c in sites:
+            off = 1 if (ps and ps[0] == 'self' and isinstance(c.func, ast.Attribute)) else 0
+            if name == 'self':
+                arg = c.func.value if isinstance(c.func, ast.Attribute) else None
+            else:
+                arg = c.args[idx - off] if len(c.args) > idx - off >= 0 else next((k.value for k in c.keywords if k.arg == name), None)
+            if not isinstance(arg, ast.Name):
+                return None
+            why = reachable_or_hidden(g, arg.id, depth + 1)
+            if why is None:
+                return None
+            whys.append(why)
+        return ' / '.join(sorted(set(whys)))[:200]
+
+    n_reg = 0
+    for w in writers(repo, 'allobjects', ['pydoctor.model.System'], unknown_counts=True, skip_modules=('pydoctor.test',)):
+        if w.kind not in ('setitem', 'setdefault'):
+            continue
+        val = w.node.value if isinstance(w.node, ast.Assign) else (w.node.args[1] if isinstance(w.node, ast.Call) and len(w.node.args) > 1 else None)
+        if not isinstance(val, ast.Name):
+            chk.error(f'R11.3: value registered in allobjects at {w.loc} is not a plain name: {norm(w.node)[:60]}')
+            continue
+        n_reg += 1
+        why = reachable_or_hidden(w.func, val.id)
+        chk.ob('R11.3', f'{w.func.qn} :: {norm(w.node)[:50]} - the registered object gets a page or is hidden', why is not None,
+               why or f'`{val.id}` is (re)registered under a linkable name but is neither inserted in a `contents` table (the page writer only walks those) '
+               'nor forced HIDDEN: the indexes and every reference to it link to a page that is never written', w.loc)
+    if n_reg < 4:
+        raise AnalysisError(f'R11.3: {n_reg} registrations in System.allobjects found (4 confirmed: addObject, handleDuplicate x2, _handle_reparenting_post)')
+    chk.require('R11.3', 8)
 
     # ------------------------------------------------------------------ R11.4
     sp = repo.func('pydoctor.templatewriter.summary.summaryPages')
@@ -301,3 +363,68 @@ def run(repo: Repo, chk: Check, thorough: bool = False) -> None:
                    'module-level name in a base / annotation is emitted as `#name` on a page without that anchor', repo.loc(mf.mod, c))
     if n_sw < 2:
         raise AnalysisError(f'R11.5: {n_sw} switch_context call(s) in _AnnotationLinker.link_to/link_xref (2 confirmed)')
+    # objects move (re-exports) after their linker exists (Documentable.docstring_linker caches it, value formatters keep a reference):
+    # a linker must not freeze the page of its object at construction time
+    n_lk = 0
+    for c in repo.classes.values():
+        if c.mod.name != 'pydoctor.linker':
+            continue
+        ini_ = c.methods.get('__init__')
+        if ini_ is None:
+            continue
+        n_lk += 1
+        frozen = [n for n in ini_.walk() if isinstance(n, ast.Attribute) and n.attr in ('page_object', 'url', 'page_url') and isinstance(n.ctx, ast.Load)]
+        chk.ob('R11.5', f'{c.qn}.__init__ :: the page of the object is not captured at construction', not frozen,
+               'the page is looked up when a link is made' if not frozen else
+               f'`{norm(frozen[0])}` is evaluated once, when the linker is created (during the AST walk, for default values): after a re-export moves the '
+               'object to another module the links are still shortened against the old page, `#name` is emitted on a page without that anchor',
+               repo.loc(ini_.mod, frozen[0] if frozen else ini_.node))
+    if n_lk < 2:
+        raise AnalysisError(f'R11.5: {n_lk} linker classes with a constructor found in pydoctor.linker (_EpydocLinker, _AnnotationLinker confirmed)')
+    # a docstring can be rendered for another object than the one it was written for (inherited): whoever renders with the linker of that
+    # *source* object must set the page context explicitly, or have established that both live on the same page
+    BINDERS = ('ensure_parsed_docstring', '_get_parsed_summary')
+    n_src = 0
+    for f in sorted(repo.funcs.values(), key=lambda f: f.qn):
+        if not f.mod.name.startswith('pydoctor.') or '.test' in f.mod.name:
+            continue
+        srcs: Set[str] = set()
+        for n in f.walk():
+            if isinstance(n, ast.Assign) and isinstance(n.value, ast.Call) and call_name(n.value) in BINDERS:
+                t = n.targets[0]
+                if isinstance(t, ast.Name):
+                    srcs.add(t.id)
+                elif isinstance(t, ast.Tuple) and t.elts and isinstance(t.elts[0], ast.Name):
+                    srcs.add(t.elts[0].id)
+        if not srcs:
+            continue
+        cfgf = CFG(f)
+        for c in calls_in(f):
+            if call_name(c) in ('isinstance', 'switch_context') or call_name(c) in BINDERS:
+                continue
+            used = [a for a in list(c.args) + [k.value for k in c.keywords]
+                    if (isinstance(a, ast.Name) and a.id in srcs) or
+                    (isinstance(a, ast.Attribute) and a.attr == 'docstring_linker' and isinstance(a.value, ast.Name) and a.value.id in srcs)]
+            if not used:
+                continue
+            sname = used[0].id if isinstance(used[0], ast.Name) else used[0].value.id  # type: ignore[attr-defined]
+            n_src += 1
+            in_with = any(isinstance(p, ast.With) and any(isinstance(it.context_expr, ast.Call) and call_name(it.context_expr) == 'switch_context' and
+                                                          norm(it.context_expr.func).startswith(f'{sname}.docstring_linker') for it in p.items)
+                          for p in parents(c))
+            same_page = False
+            for t, pol in cfgf.dominating_tests(cfgf.stmt_of(c)):
+                for x in ast.walk(t):
+                    if isinstance(x, ast.Compare) and len(x.ops) == 1 and isinstance(x.ops[0], (ast.Is, ast.IsNot, ast.Eq, ast.NotEq)) and \
+                            norm(x.left) == f'{sname}.page_object' and norm(x.comparators[0]).endswith('.page_object'):
+                        differ_op = isinstance(x.ops[0], (ast.IsNot, ast.NotEq))
+                        whole = x is t
+                        # fact "pages equal": (is, True) / (is not, False); a false conjunction containing `is not` also leaves "source is None or same page"
+                        if (whole and pol != differ_op) or (not whole and not pol and differ_op and isinstance(t, ast.BoolOp) and isinstance(t.op, ast.And)):
+                            same_page = True
+            chk.ob('R11.5', f'{f.qn} :: {norm(c.func)}(... {sname} ...) renders under an explicit page context', in_with or same_page,
+                   ('inside `with ' + sname + '.docstring_linker.switch_context(...)`' if in_with else f'only reached when {sname} is None or on the same page') if in_with or same_page else
+                   f'`{norm(c)[:70]}` renders with the linker of `{sname}` - the object the docstring was written for, which for an inherited docstring lives on '
+                   'another page: same-page references come out as `#name` on a page without that anchor', repo.loc(f.mod, c))
+    if n_src < 2:
+        raise AnalysisError(f'R11.5: {n_src} renderings through a docstring source object found (format_docstring, format_summary confirmed)')
